@@ -748,3 +748,10 @@ class ProductRepresentationHistory(Lemma):
 UNITS += [ProductRepresentationHistory()]
 
 
+
+
+def LATE_UNITS():
+    # "the value of a product on a path depends only on that path and the product's terms": a product used as a CONTROL is
+    # valued on its own terms too, whatever product is being priced (the contract lives with the control variates, c07)
+    from contracts import c07
+    return [c07.ControlUnderlyings()]
